@@ -169,11 +169,13 @@ static void print_item(const cbor_item_t* it, struct vh_buf* o, int depth) {
     }
     case CBOR_TYPE_ARRAY:
       vb_printf(o, cbor_array_is_indefinite(it) ? "[_ " : "[");
+      if (cbor_array_size(it) && !cbor_array_handle(it)) { vb_printf(o, "<%zu members but storage pointer is NULL>]", cbor_array_size(it)); break; }
       for (size_t i = 0; i < cbor_array_size(it); i++) { if (i) vb_printf(o, ","); print_item(cbor_array_handle(it)[i], o, depth + 1); }
       vb_printf(o, "]/%zu", cbor_array_allocated(it));
       break;
     case CBOR_TYPE_MAP:
       vb_printf(o, cbor_map_is_indefinite(it) ? "{_ " : "{");
+      if (cbor_map_size(it) && !cbor_map_handle(it)) { vb_printf(o, "<%zu pairs but storage pointer is NULL>}", cbor_map_size(it)); break; }
       for (size_t i = 0; i < cbor_map_size(it); i++) {
         if (i) vb_printf(o, ",");
         print_item(cbor_map_handle(it)[i].key, o, depth + 1);
@@ -219,10 +221,12 @@ void walk_blocks(const cbor_item_t* it, walk_block_cb cb, void* ud) {
     }
     case CBOR_TYPE_ARRAY:
       if (it->data) cb(it->data, cbor_array_allocated(it) * sizeof(cbor_item_t*), "array-storage", ud);
+      else break; /* nothing (or corrupt: members claimed without storage) */
       for (size_t i = 0; i < cbor_array_size(it); i++) walk_blocks(cbor_array_handle(it)[i], cb, ud);
       break;
     case CBOR_TYPE_MAP:
       if (it->data) cb(it->data, cbor_map_allocated(it) * sizeof(struct cbor_pair), "map-storage", ud);
+      else break;
       for (size_t i = 0; i < cbor_map_size(it); i++) {
         walk_blocks(cbor_map_handle(it)[i].key, cb, ud);
         walk_blocks(cbor_map_handle(it)[i].value, cb, ud);
